@@ -78,6 +78,23 @@ def _twins(syn, rng, res):
             return
 
 
+def _listed(cls, text, rng, res):
+    """Build the descriptor object from a handle; what the caller does with the handle afterwards (closing it at the end of a
+    `with` block, re-using the buffer for the next file) is its own business and does not change the configuration's disks."""
+    fh = io.StringIO(text)
+    obj = cls(fh)
+    after = rng.choice(["nothing", "nothing", "close", "reuse"])
+    if after == "close":
+        fh.close()
+    elif after == "reuse":
+        fh.seek(0)
+        fh.truncate()
+        fh.write("<Envelope/>")
+        fh.seek(0)
+    res["sets"].setdefault("handle_after_construction", []).append(after)
+    return sorted(obj.disks())
+
+
 def run(case: dict, ctx) -> dict:
     res = {"cnt": {}, "viol": [], "sets": {}}
     cnt = res["cnt"]
@@ -154,7 +171,7 @@ def run(case: dict, ctx) -> dict:
             from dissect.hypervisor.descriptor.ovf import OVF
 
             text, want = w.gen_ovf(rng, lead=rng.choice(w.LEADS))
-            o = call(lambda: sorted(OVF(io.StringIO(text)).disks()))
+            o = call(lambda: _listed(OVF, text, rng, res))
             if not o.ok:
                 res["viol"].append({"what": f"OVF raised: {o.brief()}", "mech": MECH, "detail": {"tb": o.tb, "text": text[:1500]}})
                 break
@@ -169,7 +186,7 @@ def run(case: dict, ctx) -> dict:
             from dissect.hypervisor.descriptor.vbox import VBox
 
             text, must, maybe, never = w.gen_vbox(rng, lead=rng.choice(w.LEADS[:2]))
-            o = call(lambda: sorted(VBox(io.StringIO(text)).disks()))
+            o = call(lambda: _listed(VBox, text, rng, res))
             if not o.ok:
                 res["viol"].append({"what": f"VBox raised: {o.brief()}", "mech": MECH, "detail": {"tb": o.tb, "text": text[:800]}})
                 break
@@ -192,7 +209,7 @@ def run(case: dict, ctx) -> dict:
             from dissect.hypervisor.descriptor.pvs import PVS
 
             text, want, never = w.gen_pvs(rng, lead=rng.choice(w.LEADS[:2]))
-            o = call(lambda: sorted(PVS(io.StringIO(text)).disks()))
+            o = call(lambda: _listed(PVS, text, rng, res))
             if not o.ok:
                 res["viol"].append({"what": f"PVS raised: {o.brief()}", "mech": MECH, "detail": {"tb": o.tb, "text": text[:800]}})
                 break
